@@ -1132,7 +1132,13 @@ fn analyse(sc: &Scenario, obs: &Obs) -> Case {
         let sub_attrs: Vec<APath> = attrs_all.iter().filter(|p| spec.attrs.iter().any(|q| q.matches(p.0, p.1, p.2))).copied().collect();
         let wants_event = |p: &APath| spec.events.as_ref().is_some_and(|ev| ev.iter().any(|q| q.matches(p.0, p.1, p.2)));
         let refused_by_subscriber = obs.hub_log.iter().any(|r| r.sub_id == Some(sub_id) && matches!(r.reply, SubReply::Reject(_))) || reports.iter().any(|a| a.refused);
-        let any_unconfirmed = reports.iter().any(|a| a.confirmed_at.is_none());
+        // "confirmed" is read off the wire tap (the device's transport consumed the success
+        // StatusResponse). A confirmation that arrives seconds after the report was started
+        // races with the device's own transmit timeout (the exchange may have given up already,
+        // which the tap cannot see): such an attempt counts as possibly unconfirmed.
+        let any_unconfirmed = reports
+            .iter()
+            .any(|a| a.confirmed_at.map(|c| c > a.start() + 4 * SEC).unwrap_or(true));
         let tag = |s: &str| format!("{s} (subscriber {i}, subscription {sub_id}, min {} s, max {} s)", spec.min_s, max_granted);
         // is the sequential reporter provably kept busy by another subscriber's failing attempt?
         let others_failing = attempts.iter().any(|a| a.sub_id != Some(sub_id) && !a.priming && a.confirmed_at.is_none());
